@@ -949,8 +949,9 @@ func (g *GoFakeS3) putMultipartUploadPart(bucket, object string, uploadID Upload
 		return ErrInvalidPart
 	}
 
+	// A part may be empty: only an absent or unusable length is refused.
 	size, err := strconv.ParseInt(r.Header.Get("Content-Length"), 10, 64)
-	if err != nil || size <= 0 {
+	if err != nil || size < 0 {
 		return ErrMissingContentLength
 	}
 
@@ -963,7 +964,7 @@ func (g *GoFakeS3) putMultipartUploadPart(bucket, object string, uploadID Upload
 	if r.Header.Get("X-Amz-Content-Sha256") == "STREAMING-AWS4-HMAC-SHA256-PAYLOAD" {
 		rdr = newChunkedReader(r.Body)
 		size, err = strconv.ParseInt(r.Header.Get("X-Amz-Decoded-Content-Length"), 10, 64)
-		if err != nil || size <= 0 {
+		if err != nil || size < 0 {
 			return ErrMissingContentLength
 		}
 	}
